@@ -65,3 +65,14 @@ chk("C19",
     "Python slice.indices/range as modelled in PySeq (bounds and distinctness are proved); pickle round trip of the meta tuple; one live handle per path.",
     "Lean 4 proof (refinement to a list; loop invariants; induction over histories) + file-level differential correspondence",
     "6/C19")
+chk("C20",
+    "Unbounded theorems (Props/C20.lean) over the model of PickledDict / one DBMDict session (insertion-ordered association list, closed marker, "
+    "persisted snapshot): refinement of every observation and mutation to the finite map Key -> Option Val (get, membership, get-with-default, "
+    "len, iteration, set/delete/clear as map updates) under the unique-keys invariant, which every operation preserves; non-bytes values refused "
+    "without effect; failing operations change nothing; every operation on a closed dictionary raises; close then open yields exactly the "
+    "contents at close, sync persists the current contents; from_dict holds a copy. Tied to persistent_dict.py by differential random histories "
+    "(<= 50 ops, 6-key universe, close/reopen anywhere, iteration order and full item dumps compared) and by the direct oracle against a Python dict.",
+    "Trusted: Lean kernel + 3 standard axioms; CPython dict semantics and pickle round trip; dbm.dumb as a dict within one session. DBMDict's reopen path "
+    "does not work on this backend (baseline failures) and is outside the claim, as the property states.",
+    "Lean 4 proof (refinement to a finite map, invariant preservation) + differential correspondence on histories",
+    "6/C20")
